@@ -34,6 +34,8 @@ def insertBlock (text : List Int) (p : Int) (lines : List (List Int)) (sep : Lis
 def specTwoCol (text : List Int) (p : Int) (l r : List Int) (gap w : Int) (pct : Pct) (od : Options Int) : List Int :=
   if l.isEmpty ∧ r.isEmpty then text
   else
+    -- a negative minimum distance means "no minimum" (documented after repair D17)
+    let gap := if gap < 0 then 0 else gap
     let lines := Spec.twoColumns tkA (toks (flatText l od.lineSep)) (toks (flatText r od.lineSep)) gap w pct
     insertBlock text p (lines.map joinToks) od.lineSep (!od.noTrailing)
 
